@@ -16,15 +16,20 @@ Trace == ndJsonDeserialize(TraceFile)
 VARIABLES l,      \* next line of Trace
           W,      \* watcher id -> Ideal state
           seq,    \* kernel records seen so far in this scenario
-          g,      \* per-scenario globals
-          viol,   \* violations found so far: [id, line, w, props, cause]
-          stats   \* what was covered (for the evidence file)
-vars == <<l, W, seq, g, viol, stats>>
+          g       \* per-scenario globals
+vars == <<l, W, seq, g>>
 
-G0 == [id |-> "", fam |-> "", maxq |-> 16384, defcap |-> 0, gbad |-> <<>>, ifds |-> 0, gor |-> 0, start |-> 0, infra |-> <<>>]
+(* Where the trace does not determine which expected entry a received event  *)
+(* stands for, the step relation branches (Ideal!RecvEv).  Results are       *)
+(* therefore collected outside the state, in TLC registers (-workers 1):     *)
+(*   1: high-water mark of consumed lines                                    *)
+(*   3: scenario id -> result of the branch with the fewest violations       *)
+(* so that all branches of a scenario converge again at its "end" line.      *)
 
-Init == /\ l = 1 /\ W = EmptyFn /\ seq = 0 /\ g = G0 /\ viol = <<>>
-        /\ stats = [scenarios |-> 0, lines |-> 0, nontrivial |-> 0, tags |-> {}, infra |-> <<>>, fogged |-> 0, events |-> 0, records |-> 0]
+G0 == [id |-> "", fam |-> "", maxq |-> 16384, defcap |-> 0, gbad |-> <<>>, ifds |-> 0, gor |-> 0, start |-> 0, infra |-> <<>>, events |-> 0]
+
+Init == /\ l = 1 /\ W = EmptyFn /\ seq = 0 /\ g = G0
+        /\ TLCSet(1, 1) /\ TLCSet(3, EmptyFn)
 
 Line == Trace[l]
 IsKind(k) == l <= Len(Trace) /\ Line.k = k
@@ -39,7 +44,7 @@ OpenWs == {w \in DOMAIN W : W[w].phase = "open"}
 Reset == /\ IsKind("reset")
          /\ W' = EmptyFn /\ seq' = 0
          /\ g' = [G0 EXCEPT !.id = Line.id, !.fam = Line.fam, !.maxq = Line.maxq, !.defcap = Line.defcap, !.start = l]
-         /\ UNCHANGED <<viol, stats>> /\ Next1
+         /\ Next1
 
 Flush(id) ==
   LET ws == SetToSeq(DOMAIN W)
@@ -49,14 +54,11 @@ Flush(id) ==
   IN FlattenSeq(perW) \o glob
 
 End == /\ IsKind("end")
-       /\ viol' = viol \o Flush(Line.id)
-       /\ LET tags == UNION {W[w].nontriv : w \in DOMAIN W} IN
-          stats' = [stats EXCEPT !.scenarios = @ + 1, !.lines = l,
-                                 !.nontrivial = @ + (IF tags # {} THEN 1 ELSE 0),
-                                 !.tags = @ \cup tags,
-                                 !.fogged = @ + (IF \E w \in DOMAIN W : W[w].fog THEN 1 ELSE 0),
-                                 !.records = @ + seq,
-                                 !.infra = IF g.infra # <<>> /\ Len(@) < 10 THEN Append(@, [id |-> Line.id, what |-> g.infra[1]]) ELSE @]
+       /\ LET mine == [viol |-> Flush(Line.id), tags |-> UNION {W[w].nontriv : w \in DOMAIN W},
+                       fog |-> \E w \in DOMAIN W : W[w].fog, records |-> seq, events |-> g.events,
+                       infra |-> g.infra, lines |-> l - g.start + 1]
+              cur  == TLCGet(3)
+          IN TLCSet(3, IF Line.id \in DOMAIN cur /\ Len(cur[Line.id].viol) <= Len(mine.viol) THEN cur ELSE (Line.id :> mine) @@ cur)
        /\ W' = EmptyFn /\ seq' = 0 /\ g' = G0 /\ Next1
 
 \* ---- NewWatcher -----------------------------------------------------------
@@ -71,7 +73,7 @@ New == /\ IsKind("new")
                /\ g' = IF ~Line.fault THEN Infra("NewWatcher failed: " \o Line.ret)
                        ELSE IF Line.ifds # g.ifds \/ Line.gor # g.gor
                        THEN GBad({"C13"}, "failed_new_leaks") ELSE g
-       /\ UNCHANGED <<seq, viol, stats>> /\ Next1
+       /\ UNCHANGED seq /\ Next1
 
 \* ---- filesystem step: the kernel records it produced -----------------------
 ApplyAll(ws, recs, base, maxq) ==
@@ -83,15 +85,17 @@ Fs == /\ IsKind("fs")
       /\ seq' = seq + Len(Line.shadow)
       /\ g' = IF \E k \in 1..Len(Line.shadow) : Line.shadow[k].ino \in {"?", "overflow"}
               THEN Infra("shadow record without object") ELSE g
-      /\ UNCHANGED <<viol, stats>> /\ Next1
+      /\ Next1
 
 \* ---- API calls -------------------------------------------------------------
 Fog(ws) == [ws EXCEPT !.fog = TRUE]
 FlagCtx(ws) == IF "msgone" \in ws.flags THEN ":error_pending_after_move_then_delete" ELSE ""
 
 CallResult(ws, c) ==
-  IF c.ret = "blocked" THEN Fog(Bad(ws, {"C05"}, "blocked:" \o c.op \o FlagCtx(ws)))
-  ELSE IF c.ret = "pending" THEN Fog(Note(ws, "async"))
+  IF c.ret = "blocked" THEN LET b == Fog(Bad(ws, {"C05"}, "blocked:" \o c.op \o FlagCtx(ws))) IN
+                            IF c.op = "close" THEN [RelaxAll(b) EXCEPT !.phase = "closing"] ELSE b
+  ELSE IF c.ret = "pending" THEN LET b == Fog(Note(ws, "async")) IN
+                            IF c.op = "close" THEN [RelaxAll(b) EXCEPT !.phase = "closing"] ELSE b
   ELSE CASE c.op = "add" ->
               IF c.recurse THEN Fog(ws)
               ELSE IdealAdd(ws, Clean(c.abs, c.arg), c.resino, c.reserr,
@@ -105,7 +109,7 @@ Call == /\ IsKind("call")
         /\ IF Line.w \in DOMAIN W
            THEN W' = [W EXCEPT ![Line.w] = CallResult(@, Line)] /\ g' = g
            ELSE W' = W /\ g' = Infra("call on unknown watcher")
-        /\ UNCHANGED <<seq, viol, stats>> /\ Next1
+        /\ UNCHANGED seq /\ Next1
 
 \* an asynchronous call came back (or is confirmed blocked)
 JoinResult(ws, c) ==
@@ -114,71 +118,79 @@ JoinResult(ws, c) ==
   ELSE ws
 
 JoinT == /\ IsKind("join")
-        /\ IF Line.w \in DOMAIN W
-           THEN W' = [W EXCEPT ![Line.w] = JoinResult(@, Line)] /\ g' = g
-           ELSE W' = W /\ g' = g
-        /\ UNCHANGED <<seq, viol, stats>> /\ Next1
+         /\ IF Line.w \in DOMAIN W
+            THEN W' = [W EXCEPT ![Line.w] = JoinResult(@, Line)] /\ g' = g
+            ELSE W' = W /\ g' = g
+         /\ UNCHANGED seq /\ Next1
 
 \* ---- consumer --------------------------------------------------------------
 Recv == /\ IsKind("recv")
         /\ IF Line.w \in DOMAIN W
-           THEN W' = [W EXCEPT ![Line.w] = RecvVal(@, Line.ch, Line.val)]
+           THEN \E nws \in RecvVal(W[Line.w], Line.ch, Line.val) : W' = [W EXCEPT ![Line.w] = nws]
            ELSE W' = W
-        /\ g' = IF ~Line.q THEN Infra("not quiescent at recv") ELSE g
-        /\ stats' = [stats EXCEPT !.events = @ + 1]
-        /\ UNCHANGED <<seq, viol>> /\ Next1
+        /\ g' = IF ~Line.q THEN Infra("not quiescent at recv") ELSE [g EXCEPT !.events = @ + 1]
+        /\ UNCHANGED seq /\ Next1
+
+DrainEnd(w1, d) ==
+  CASE d.end = "idle"   -> IF w1.phase = "closed" /\ ~(w1.evc /\ w1.errc)
+                           THEN Bad(w1, {"C06"}, "channels_not_closed_after_close") ELSE Settle(w1)
+    [] d.end = "closed" -> IF w1.phase = "open" THEN Bad(w1, {"C06"}, "channel_closed_without_close")
+                           ELSE IF w1.postClose > (IF w1.cap < 0 THEN 0 ELSE w1.cap) THEN Bad(w1, {"C06"}, "events_after_close") ELSE w1
+    [] OTHER -> w1
 
 DrainW(ws, d) ==
-  LET w1 == IF d.vals = <<>> THEN ws ELSE FoldLeft(LAMBDA acc, v : RecvVal(acc, v.ch, v), ws, d.vals)
-  IN CASE d.end = "idle"   -> IF w1.phase = "closed" /\ ~(w1.evc /\ w1.errc)
-                               THEN Bad(w1, {"C06"}, "channels_not_closed_after_close") ELSE Settle(w1)
-       [] d.end = "closed" -> IF w1.phase # "closed" THEN Bad(w1, {"C06"}, "channel_closed_without_close")
-                              ELSE IF w1.postClose > (IF w1.cap < 0 THEN 0 ELSE w1.cap) THEN Bad(w1, {"C06"}, "events_after_close") ELSE w1
-       [] OTHER -> w1
+  LET S == IF d.vals = <<>> THEN {ws}
+           ELSE FoldLeft(LAMBDA acc, v : UNION {RecvVal(x, v.ch, v) : x \in acc}, {ws}, d.vals)
+  IN {DrainEnd(x, d) : x \in S}
 
 Drain == /\ IsKind("drain")
          /\ IF Line.w \in DOMAIN W
-            THEN W' = [W EXCEPT ![Line.w] = DrainW(@, Line)]
+            THEN \E nws \in DrainW(W[Line.w], Line) : W' = [W EXCEPT ![Line.w] = nws]
             ELSE W' = W
-         /\ g' = IF Line.end \in {"unquiet", "max"} THEN Infra("drain ended " \o Line.end) ELSE g
-         /\ stats' = [stats EXCEPT !.events = @ + Len(Line.vals)]
-         /\ UNCHANGED <<seq, viol>> /\ Next1
+         /\ g' = IF Line.end \in {"unquiet", "max"} THEN Infra("drain ended " \o Line.end) ELSE [g EXCEPT !.events = @ + Len(Line.vals)]
+         /\ UNCHANGED seq /\ Next1
 
 \* ---- observation -------------------------------------------------------------
 ObsW(ws, o) ==
   LET w1 == CheckObs(ws, o, g.defcap) IN
-  IF w1.phase = "closed" /\ w1.evc /\ w1.errc /\ (o.fdopen \/ o.rd # "gone" \/ Len(o.marks) > 0)
-  THEN Bad(w1, {"C13"}, IF o.fdopen THEN "leak:descriptor" ELSE "leak:goroutine") ELSE w1
+  IF w1.phase = "closed" /\ w1.evc /\ w1.errc /\ o.rd # "gone"
+  THEN Bad(w1, {"C13"}, "leak:goroutine") ELSE w1
 
+\* descriptors are counted per process: every Watcher that is not completely closed may hold one
 Obs == /\ IsKind("obs")
        /\ IF Line.w \in DOMAIN W
           THEN W' = [W EXCEPT ![Line.w] = ObsW(@, Line)]
           ELSE W' = W
        /\ g' = LET g1 == [g EXCEPT !.ifds = Line.ifds, !.gor = Line.gor]
-                   allClosed == \A w \in DOMAIN W' : W'[w].phase = "closed" /\ W'[w].evc /\ W'[w].errc IN
+                   alive == {w \in DOMAIN W' : ~(W'[w].phase = "closed" /\ W'[w].evc /\ W'[w].errc)} IN
                IF ~Line.q THEN [g1 EXCEPT !.infra = Append(@, "not quiescent at obs")]
-               ELSE IF allClosed /\ Line.pending = <<>> /\ (Line.ifds # 0 \/ Line.gor # 0)
-               THEN [g1 EXCEPT !.gbad = Append(@, [props |-> {"C13"}, cause |-> IF Line.ifds # 0 THEN "leak:descriptor" ELSE "leak:goroutine"])]
+               ELSE IF Line.pending = <<>> /\ Line.ifds > Cardinality(alive)
+               THEN [g1 EXCEPT !.gbad = Append(@, [props |-> {"C13"}, cause |-> "leak:descriptor"])]
+               ELSE IF Line.pending = <<>> /\ alive = {} /\ Line.gor # 0
+               THEN [g1 EXCEPT !.gbad = Append(@, [props |-> {"C13"}, cause |-> "leak:goroutine"])]
                ELSE g1
-       /\ UNCHANGED <<seq, viol, stats>> /\ Next1
+       /\ UNCHANGED seq /\ Next1
 
 \* ---- the worker process died inside this scenario ---------------------------
 Crash == /\ IsKind("crash")
          /\ g' = GBad({"*"}, "crash:" \o Line.cls)
-         /\ UNCHANGED <<W, seq, viol, stats>> /\ Next1
+         /\ UNCHANGED <<W, seq>> /\ Next1
 
 Other == /\ l <= Len(Trace) /\ Line.k \in {"recurse", "bad"}
          /\ g' = IF Line.k = "bad" THEN Infra("bad step") ELSE g
-         /\ UNCHANGED <<W, seq, viol, stats>> /\ Next1
+         /\ UNCHANGED <<W, seq>> /\ Next1
 
 Next == (Reset \/ End \/ New \/ Fs \/ Call \/ JoinT \/ Recv \/ Drain \/ Obs \/ Crash \/ Other)
-        /\ TLCSet(1, [l |-> l', viol |-> viol', stats |-> stats'])
+        /\ TLCSet(1, IF TLCGet(1) > l' THEN TLCGet(1) ELSE l')
 
 Spec == Init /\ [][Next]_vars
 
 \* every line was consumed; results are written for bin/check
 Accepted ==
-  LET r == TLCGet(1) IN
-  /\ JsonSerialize(OutFile, [consumed |-> r.l - 1, total |-> Len(Trace), viol |-> r.viol, stats |-> r.stats])
-  /\ r.l - 1 = Len(Trace)
+  LET hw == TLCGet(1)
+      R  == TLCGet(3)
+      ids == SetToSeq(DOMAIN R) IN
+  /\ JsonSerialize(OutFile, [consumed |-> hw - 1, total |-> Len(Trace),
+                              results |-> [k \in 1..Len(ids) |-> [id |-> ids[k], r |-> R[ids[k]]]]])
+  /\ hw - 1 = Len(Trace)
 =============================================================================
